@@ -289,13 +289,27 @@ Definition run_body (inp : val) : option val :=
   | _ => None
   end.
 
+(* FormCodec.Marshal with the tag reader of the encoding site explicit (Model/FormCodec.v,
+   [set_fields_k whole_tag]: setStructToForm uses the whole value of Tag.Get as the key); struct
+   destinations are decoded by [form_unmarshal_struct_st], whose loop reads the whole tag as
+   well (C11_form_sites_read_whole_tag ties the two presentations).  xTAG of a field is the value
+   of reflect's Tag.Get("form") on the harness side: struct types generated at run time carry
+   tags of every shape (options after a comma, empty names, spaces, reserved characters, quotes,
+   other keys around the form key), so a site that makes anything else of the tag than the model
+   shows up in ENC or in the decoded value. *)
+Definition form_marshal_sites (v : fsrc) : outcome bytes :=
+  match v with
+  | SStruct fs => Ok (form_marshal_struct_k whole_tag fs)
+  | _ => form_marshal v
+  end.
+
 Definition run (inp : val) : option val :=
   match inp with
   | VL [VS c; a; b] =>
       if is c "form" then
         match fsrc_of_val a, fdst_of_val b with
         | Some src, Some dst =>
-            let e := form_marshal src in
+            let e := form_marshal_sites src in
             let d := match e with
                      | Ok enc => form_dec_obs enc dst
                      | _ => vsym "skip"
